@@ -23,11 +23,21 @@ SSPEC = os.path.join(vlib.SPEC, "sinks")
 ERR_FAULTS = ("werr0", "werrP", "ferr")
 
 
+def _printed_json(r, tag="REPLAY"):
+    """PrintT(<<tag, ToJson(x)>>) lines -> python objects. TLC prints the string with \\" and \\\\ escapes only,
+    which is also a JSON string literal (vlib.replay_lines does the same through a character-level parser)."""
+    pre, out = f'<<"{tag}", ', []
+    for l in r.out.splitlines():
+        if l.startswith(pre) and l.endswith(">>"):
+            out.append(json.loads(json.loads(l[len(pre):-2])))
+    return out
+
+
 def _tlc_replay(chk, spec_dir, module, cfg, **kw):
     r = vlib.tlc(spec_dir, module, cfg, timeout=1800, **kw)
     if r.errors or r.invariant_violated:
         raise vlib.ToolError(f"{module}/{cfg}: {r.errors[:2]}")
-    beh = vlib.replay_lines(r)
+    beh = _printed_json(r)
     if not beh:
         raise vlib.ToolError(f"{module}/{cfg}: no behaviours generated")
     return r, beh
@@ -57,7 +67,7 @@ def bug_run(chk, spec_dir, module, cfg, bug, expect):
 # (a) Lambda reporter
 # ============================================================================================
 def lam_models(chk, tier):
-    cfgs = ["MC_lam_quick.cfg", "MC_lam_quick3.cfg"] if tier == "quick" else ["MC_lam.cfg", "MC_lam_quick3.cfg"]
+    cfgs = ["MC_lam_quick.cfg"] if tier == "quick" else ["MC_lam.cfg", "MC_lam_quick3.cfg"]
     for cfg in cfgs:
         r = vlib.model_check(LSPEC, "LambdaReporter", cfg, timeout=3000)
         chk.add_model("LambdaReporter/" + cfg, r)
@@ -69,8 +79,8 @@ def lam_models(chk, tier):
     bugs = [("noclear", ["Conservation", "NoDup"]), ("eager", ["NoTear"]), ("noswap", ["Conservation"]),
             ("nowait", ["OnlyOnFlush", "FlushDelivers"]), ("retry", ["OnlyOnFlush", "TornIsLast", "Permanent", "NoDup"]),
             ("gaugereset", ["GaugeLast"])]
-    if tier == "quick":
-        bugs = bugs[:4] if chk.seed % 2 else bugs[2:]
+    if tier == "quick":                       # three of the six per run, rotating with the seed
+        bugs = [bugs[(chk.seed + i) % 6] for i in (0, 2, 4)] if chk.seed % 2 else [bugs[(chk.seed + i) % 6] for i in (1, 3, 5)]
     caught = {}
     for b, exp in bugs:
         caught[b] = bug_run(chk, LSPEC, "LambdaReporter", "MC_lam_quick3.cfg", b, exp)
@@ -302,8 +312,11 @@ def imm_models(chk, tier):
             if r.coverage.get(act, 0) == 0:
                 raise vlib.ToolError(f"ImmediateFlush/{cfg}: action {act} never taken")
     caught = {}
-    for b, exp in (("flushOutside", ["Atomic"]), ("noFlush", ["Atomic", "FlushedOnReturn"]), ("wedge", ["Deadlock", "Property", "HolderOK"]),
-                   ("flushOnOk", ["FlushEach"]), ("recover", ["Property"])):
+    bugs = [("flushOutside", ["Atomic"]), ("noFlush", ["Atomic", "FlushedOnReturn"]), ("wedge", ["Deadlock", "Property", "HolderOK"]),
+            ("flushOnOk", ["FlushEach"]), ("recover", ["Property"])]
+    if tier == "quick":
+        bugs = [bugs[(chk.seed + i) % 5] for i in (0, 1, 2)]
+    for b, exp in bugs:
         caught[b] = bug_run(chk, SSPEC, "ImmediateFlush", "MC_imm.cfg", b, exp)
     chk.extra["imm_model_bugs_caught"] = caught
 
@@ -466,6 +479,178 @@ def run_imm_conc(chk, tier, scen=None, tag="immconc"):
                              f"{st['scenarios']} scenarios): the traces do not exercise the lock")
 
 
+
+# ============================================================================================
+# (d) test sinks
+# ============================================================================================
+def _norm_obs(o):
+    return [o["t"], float(o["v"]), o.get("n", 1) if o["t"] == "r" else 1]
+
+
+def _norm_metric(m):
+    return {"obs": [_norm_obs(o) for o in m["obs"]], "unit": m["unit"], "dims": [list(d) for d in m["dims"]], "flag": bool(m["flag"])}
+
+
+def _norm_image(im):
+    ts = im.get("timestamp")
+    return {"timestamp": None if ts in (None, -1) else ts,
+            "values": sorted([list(x) for x in im["values"]]),
+            "metrics": sorted([[x[0], _norm_metric(x[1])] for x in im["metrics"]], key=lambda x: x[0])}
+
+
+def _norm_call(c):
+    if c["call"] == "timestamp":
+        return ["timestamp", c["secs"]]
+    if c["kind"] == "string":
+        return ["value", c["name"], "string", c["s"]]
+    if c["kind"] == "metric":
+        return ["value", c["name"], "metric", _norm_metric(c.get("m") or c)]
+    return ["value", c["name"], c["kind"]]
+
+
+def _driver_entry(script):
+    out = []
+    for c in script:
+        d = {"call": c["call"], "secs": c["secs"], "name": c["name"], "kind": c["kind"], "s": c["s"]}
+        d.update(c["m"])
+        out.append(d)
+    return out
+
+
+def run_tsink(chk, tier, beh=None, catalogue=None, tag="tsink"):
+    r = vlib.model_check(SSPEC, "TestSinks", "MC_tsink.cfg", timeout=600)
+    chk.add_model("TestSinks/MC_tsink.cfg", r)
+    if beh is None:
+        cfg = "MC_tsink_replay.cfg" if tier == "quick" else "MC_tsink_replay_thorough.cfg"
+        rr, beh = _tlc_replay(chk, SSPEC, "TestSinksReplay", cfg)
+        chk.add_model("TestSinksReplay/" + cfg, rr)
+        catalogue = _printed_json(rr, "CATALOGUE")[0]
+        for i, b in enumerate(beh):
+            b["id"] = i + 1
+            b["entries"] = [_driver_entry(sc) for sc in catalogue]
+            b["catalogue"] = catalogue
+    bp, op = (os.path.join(chk.dir, f"{tag}-{x}.ndjson") for x in ("beh", "out"))
+    vlib.write_ndjson(bp, beh)
+    vlib.run_bin("imm", ["tsink", "--behaviours", bp, "--out", op], timeout=1800)
+    outs = {o["id"]: o for o in vlib.read_ndjson(op)}
+    st = chk.extra.setdefault("test_sinks", {"behaviours": 0, "appends": 0, "images_compared": 0, "drains": 0})
+    bad = 0
+    for b in beh:
+        o = outs[b["id"]]
+        cat = b["catalogue"]
+        viol = None
+        for i, (s, g) in enumerate(zip(b["steps"], o["obs"])):
+            w = f"step {i + 1} ({s['op']})"
+            if "panic" in g:
+                viol = f"{w}: panicked: {g['panic']}"
+            elif s["op"] == "Append":
+                st["appends"] += 1
+                script = [_norm_call(c) for c in cat[s["e"] - 1]]
+                given = [_norm_call(c) for c in g["given"]]
+                if given != script:
+                    raise vlib.ToolError(f"tsink: the recording EntryWriter was not given the scripted calls: {given} vs {script}")
+                st["images_compared"] += 1
+                if _norm_image(g["test_entry"]) != _norm_image(s["image"]):
+                    viol = (f"{w}: to_test_entry of catalogue entry {s['e']} is {json.dumps(_norm_image(g['test_entry']))}; a format is given the calls "
+                            f"{json.dumps(given)}, whose image is {json.dumps(_norm_image(s['image']))}")
+            elif s["op"] == "Entries":
+                st["images_compared"] += len(s["inspector"])
+                if [_norm_image(x) for x in g["inspector"]] != [_norm_image(x) for x in s["inspector"]]:
+                    viol = f"{w}: Inspector::entries() returned {len(g['inspector'])} entries that are not the images of everything appended so far, in order"
+            elif s["op"] == "Get":
+                if _norm_image(g["get"]) != _norm_image(s["image"]):
+                    viol = f"{w}: Inspector::get({s['i'] - 1}) is not the image of the entry appended at that position"
+            elif s["op"] == "Drain":
+                st["drains"] += 1
+                got = [[_norm_call(c) for c in e] for e in g["drained"]]
+                want = [[_norm_call(c) for c in cat[e - 1]] for e in s["drained"]]
+                if got != want:
+                    viol = f"{w}: VecEntrySink::drain returned {len(got)} entries, expected exactly the {len(want)} entries appended since the last drain, in order"
+            elif s["op"] == "Contains":
+                if g["contains"] != s["contains"]:
+                    viol = f"{w}: VecEntrySink::contains_entry(== catalogue entry {s['e']}) returned {g['contains']}"
+            elif s["op"] == "FlushAsync":
+                if g["ready"] != [True, True]:
+                    viol = f"{w}: flush_async of VecEntrySink / test_entry_sink not ready at the first poll: {g['ready']}"
+            if viol:
+                break
+        chk.evaluations += 1
+        st["behaviours"] += 1
+        chk.nontrivial.add("tsink:" + json.dumps([(s["op"], s["e"], s["i"]) for s in b["steps"]]))
+        if viol:
+            bad += 1
+            chk.violation(f"test sinks, behaviour {b['id']}: {viol}", {"kind": "tsink", "behaviour": b, "observed": o}, key="X02:tsink")
+    chk.traces += len(beh) - bad
+
+
+# ============================================================================================
+# (c) rate_limited! through the queue's in-band validation report
+# ============================================================================================
+def rl_models(chk, tier):
+    cfgs = ["MC_rl.cfg"] if tier == "quick" else ["MC_rl.cfg", "MC_rl_3t.cfg"]
+    for cfg in cfgs:
+        r = vlib.model_check(SSPEC, "RateLimit", cfg, timeout=3000)
+        chk.add_model("RateLimit/" + cfg, r)
+        for act in ("Tick", "Sample", "Load", "Cas"):
+            if r.coverage.get(act, 0) == 0:
+                raise vlib.ToolError(f"RateLimit/{cfg}: action {act} never taken")
+    caught = {}
+    for b, exp in (("lt", ["FirstCalls"]), ("nointerval", ["Spaced"]), ("store", ["Spaced"])):
+        caught[b] = bug_run(chk, SSPEC, "RateLimit", "MC_rl.cfg", b, exp)
+    chk.extra["ratelimit_model_bugs_caught"] = caught
+
+
+def rl_scenarios(chk, tier):
+    rng = random.Random(chk.seed * 2654435761 % (1 << 31) + 2)
+    out = []
+    for p in range(3 if tier == "quick" else 12):          # one process each (the limiter's state is a static)
+        t, bursts = 0, []
+        budget = 2300 if tier == "quick" else 6000
+        first_gap = rng.choice([0, 0, 40])
+        while t < budget:
+            gap = first_gap if not bursts else rng.choice([5, 60, 300, 450, 700, 990, 1010, 1300])
+            t += gap
+            bursts.append({"gap_ms": gap, "n": rng.randint(1, 6), "fail": rng.random() < 0.8 or not bursts})
+        out.append({"id": p + 1, "threads": rng.choice([1, 2, 3]), "bursts": bursts})
+    return out
+
+
+def rl_record(chk, tier, scen, tag="rl"):
+    """Runs the recording processes (mostly sleeping) - called from a helper thread."""
+    res = []
+    for sc in scen:
+        sp, tp, mp = (os.path.join(chk.dir, f"{tag}{sc['id']}-{x}.ndjson") for x in ("scen", "trace", "meta"))
+        vlib.write_ndjson(sp, [sc])
+        vlib.run_bin("imm", ["rl", "--scenarios", sp, "--out", tp, "--meta", mp], timeout=600)
+        res.append((sc, tp))
+    return res
+
+
+def rl_validate(chk, recorded):
+    st = chk.extra.setdefault("rate_limit", {"processes": 0, "failing_entries": 0, "reports": 0, "recorded_ms": 0})
+    for sc, tp in recorded:
+        evs = vlib.read_ndjson(tp)
+        v = vlib.validate_trace(SSPEC, "RateLimitTrace", "RateLimitTrace.cfg", tp, timeout=300)
+        st["processes"] += 1
+        fails = [e for e in evs if e["ev"] == "Fail"]
+        reps = [e for e in evs if e["ev"] == "Report"]
+        st["failing_entries"] += len(fails)
+        st["reports"] += len(reps)
+        st["recorded_ms"] += evs[-1]["ms"] if evs else 0
+        chk.evaluations += 1
+        chk.nontrivial.add("rl:" + json.dumps(sc["bursts"]))
+        if not fails:
+            raise vlib.ToolError("imm rl: no failing entry reached the stream")
+        if v.accepted:
+            chk.traces += 1
+            chk.sample({"rate_limit": {"failing_entries_ms": [e["ms"] for e in fails][:12], "reports_ms": [e["ms"] for e in reps]}})
+        else:
+            chk.violation(f"rate_limited! (in-band validation report of the background queue), process {sc['id']}: event {json.dumps(v.event)} "
+                          f"(line {v.line}) cannot be explained by any epoch / sampling within the recorded bounds: a report where the limiter must "
+                          f"skip, or none where it must call (first failure, or a whole interval later); <<epoch ms, NEXT_CALL>> = {v.state}; "
+                          f"reports at ms {[e['ms'] for e in reps]}",
+                          {"kind": "rl", "scenario": sc, "trace": evs}, key="X02:ratelimit")
+
 # ============================================================================================
 def run(prop, tier):
     chk = vlib.Check(prop, tier)
@@ -478,14 +663,24 @@ def run(prop, tier):
         "Lambda reporter: the fault of an invocation is applied by the first destination handle that is offered bytes (periodic empty flushes of the queue pass)",
         "FlushImmediately: the stream logs its own calls, i.e. inside whatever lock the sink holds; Lock/Unlock are silent steps of the trace spec",
         "FlushImmediately after a stream panic: the code poisons its mutex and every later append panics; the property layer only demands that appends terminate and hand-offs stay whole",
+        "rate_limited! is observable only at the queue's in-band validation report (one call site, called by the writer thread only): the cross-thread part of the macro is decided by TLC on the model alone",
+        "rate-limit traces: stamps are ms of one monotonic clock taken by the writer thread; an attempt is sampled between the stamp of its failing entry and the stamp of the next event",
+        "test sinks: TestEntry is an image of the writer calls (last timestamp / last string / last metric per name); for entries without repeated names the image is one-to-one",
     ]
     vlib.cargo_build(["lam", "imm"])
+    # the rate-limit recordings are mostly sleeping (seconds of wall clock): they run beside everything else
+    from concurrent.futures import ThreadPoolExecutor
+    pool = ThreadPoolExecutor(max_workers=1)
+    rl_future = pool.submit(rl_record, chk, tier, rl_scenarios(chk, tier))
     steps = [("lambda models", lam_models), ("lambda replay", run_lambda),
-             ("imm models", imm_models), ("imm sequential", run_imm_seq), ("imm concurrent", run_imm_conc)]
+             ("imm models", imm_models), ("imm sequential", run_imm_seq), ("imm concurrent", run_imm_conc),
+             ("test sinks", run_tsink), ("rate limit models", rl_models),
+             ("rate limit traces", lambda c, t: rl_validate(c, rl_future.result()))]
     for name, step in steps:
         t0 = time.time()
         step(chk, tier)
         log(f"[{prop}] {name}: {time.time() - t0:.1f}s")
+    pool.shutdown()
     return chk.finish()
 
 
@@ -502,6 +697,10 @@ def replay(prop, path):
         run_imm_seq(chk, "quick", beh=[dict(rp["behaviour"], id=1)], tag="replay")
     elif kind == "imm-conc":
         run_imm_conc_replay(chk, rp)
+    elif kind == "tsink":
+        run_tsink(chk, "quick", beh=[dict(rp["behaviour"], id=1)], tag="replay")
+    elif kind == "rl":
+        rl_validate(chk, rl_record(chk, "quick", [dict(rp["scenario"], id=1)], tag="replay"))
     else:
         raise vlib.ToolError(f"unknown replay kind {kind}")
     log("replay:", "violation reproduced" if chk.violations else "no violation")
